@@ -8,7 +8,7 @@ open Pox Pox.Proto Pox.Revent
   action: every action carries "s" = index of the source it is performed on, and
           {"op":"add","et","hid","prio","once","weak":null|o} | {"op":"bind","meths":[[prefix,et]..],"pfx","base","prio","weak"} | {"op":"rmm","pairs":[[et,eid]..]}
         | {"op":"rmh","hid","et":null|t} | {"op":"rme","eid","et"} | {"op":"rmp","et","eid","et2"}
-        | {"op":"clear"} | {"op":"drop","o"} | {"op":"count"} | {"op":"raise","et","form":"inst"|"cls"|"junkc"|"junko","noerr"}
+        | {"op":"clear"} | {"op":"drop","o"} | {"op":"count"} | {"op":"raise","et","form":"inst"|"cls"|"junkc"|"junko"|"fwd"|"again" (+"f"),"noerr"}
   ret: {"k":"none"|"false"|"true"|"tup0"|"other"} | {"k":"tup1","h"} | {"k":"tup2","h","r"} | {"k":"exc","e":"revent"|"key"|"attr"|"other"}
 The k-th invocation (k = 0,1,..) of handler `hid` runs the k-th script of its list; beyond the list (or with no list)
 the handler does nothing and returns None.
@@ -60,7 +60,8 @@ def parseAction (j : J) : Except String Action := do
   else if op = "raise" then
     let f ← j.string "form"
     let form ← if f = "inst" then pure Form.inst else if f = "cls" then pure Form.cls
-               else if f = "junkc" then pure (Form.junk true) else if f = "junko" then pure (Form.junk false) else .error s!"bad form {f}"
+               else if f = "junkc" then pure (Form.junk true) else if f = "junko" then pure (Form.junk false)
+               else if f = "again" then pure (Form.again (← j.nat "f")) else if f = "fwd" then pure Form.fwd else .error s!"bad form {f}"
     pure (.raise (← j.nat "et") form (← j.boolean "noerr"))
   else .error s!"bad op {op}"
 
